@@ -71,7 +71,7 @@ fn for_instances(cx: &Cx, rep: &mut Report, run: &RoleRun, n: usize, mut f: impl
                 Err(e) => rep.fail("TP-parse", &run.label(), "parse", e, &run.site(), json!({"path": cond_str(&p.cond)})),
                 Ok(i) => {
                     if !i.notes.is_empty() { rep.fail("unanalysable", &run.label(), &format!("hole:{}", i.notes[0].chars().take(40).collect::<String>()), &format!("a template hole could not be printed schematically: {}", i.notes.join("; ")), &run.site(), json!({})); }
-                    if seen.insert(i.text.clone()) { count += 1; for (name, msg) in crate::props_hyg::signature_findings(i) { rep.fail("TP-signature", &run.label(), &name, &msg, &run.site(), json!({})); } f(rep, i, p); }
+                    if seen.insert(i.text.clone()) { count += 1; for (name, msg) in crate::props_hyg::signature_findings(i) { rep.fail("TP-signature", &run.label(), &name, &msg, &run.site(), json!({})); } for (name, msg) in crate::props_hyg::impl_generics_findings(i) { rep.fail("TP-where-retained", &run.label(), &name, &msg, &run.site(), json!({})); } f(rep, i, p); }
                 }
             }
         }
@@ -101,7 +101,7 @@ fn for_instances_shapes(cx: &Cx, rep: &mut Report, run: &RoleRun, n: usize, want
                 Err(e) => rep.fail("TP-parse", &run.label(), "parse", e, &run.site(), json!({"path": cond_str(&p.cond), "empty": em})),
                 Ok(i) => {
                     if !i.notes.is_empty() { rep.fail("unanalysable", &run.label(), &format!("hole:{}", i.notes[0].chars().take(40).collect::<String>()), &format!("a template hole could not be printed schematically: {}", i.notes.join("; ")), &run.site(), json!({})); }
-                    if seen.insert(i.text.clone()) { count += 1; for (name, msg) in crate::props_hyg::signature_findings(i) { rep.fail("TP-signature", &run.label(), &name, &msg, &run.site(), json!({})); } f(rep, i, p, &em); }
+                    if seen.insert(i.text.clone()) { count += 1; for (name, msg) in crate::props_hyg::signature_findings(i) { rep.fail("TP-signature", &run.label(), &name, &msg, &run.site(), json!({})); } for (name, msg) in crate::props_hyg::impl_generics_findings(i) { rep.fail("TP-where-retained", &run.label(), &name, &msg, &run.site(), json!({})); } f(rep, i, p, &em); }
                 }
             }
         }
@@ -122,6 +122,7 @@ fn clone_call(t: &Tm, method: &str) -> Option<(String, Vec<Tm>)> {
 
 pub fn c07(cx: &Cx) -> i32 {
     let mut rep = cx.report("C07");
+    crate::misc::span_hygiene_rule(cx, &mut rep);
     // ---- struct
     if let Some(r) = role(cx, "struct", "Clone") {
         let run = run(&cx.ix, r, None, CollMode::Summary, &[]);
@@ -266,6 +267,7 @@ fn type_is_ref(t: &syn::Type) -> bool { matches!(t, syn::Type::Reference(_)) }
 
 pub fn c08(cx: &Cx) -> i32 {
     let mut rep = cx.report("C08");
+    crate::misc::span_hygiene_rule(cx, &mut rep);
     crate::misc::expand_self_rule(cx, &mut rep);
     let mut checked_ops = 0;
     for (variant, table, nforms) in [("BinaryOp", &BINOPS[..], 4usize), ("AssignOp", &BINOPS[..], 2), ("UnaryOp", &UNOPS[..], 2)] {
@@ -424,6 +426,7 @@ fn check_debug_chain(rep: &mut Report, inst: &Instance, label: &str, site: &str,
 
 pub fn c10(cx: &Cx) -> i32 {
     let mut rep = cx.report("C10");
+    crate::misc::span_hygiene_rule(cx, &mut rep);
     crate::misc::helper_name_rule(cx, &mut rep, "HelperAttributeForDebug", "debug");
     for kind in ["struct", "enum"] {
         let Some(r) = role(cx, kind, "Debug") else { rep.fail("roles", kind, "Debug", "role not found", "-", json!({})); continue };
@@ -463,6 +466,7 @@ pub fn c10(cx: &Cx) -> i32 {
                     let inst = cache.get(v, 2);
                     let Ok(inst) = &*inst else { rep.fail("TP-parse", &label, "parse", "instance does not parse", &site, json!({})); continue };
                     for (name, msg) in crate::props_hyg::signature_findings(inst) { rep.fail("TP-signature", &label, &name, &msg, &site, json!({})); }
+                    for (name, msg) in crate::props_hyg::impl_generics_findings(inst) { rep.fail("TP-where-retained", &label, &name, &msg, &site, json!({})); }
                     let ims = find_impls(&inst.file);
                     let Some(im) = ims.iter().find(|im| ends(&trait_path(im), "fmt::Debug")) else { rep.fail("TP-debug", &label, "no-impl", "no Debug impl", &site, json!({})); continue };
                     let Some(m) = method(im, "fmt") else { rep.fail("TP-debug", &label, "no-fmt", "no fmt method", &site, json!({})); continue };
@@ -543,6 +547,7 @@ pub fn consulted_rule(cx: &Cx, rep: &mut Report, which: &[&str]) {
 // =============================================================================================== C18
 pub fn c18(cx: &Cx) -> i32 {
     let mut rep = cx.report("C18");
+    crate::misc::span_hygiene_rule(cx, &mut rep);
     for variant in ["Deref", "DerefMut"] {
         let Some(r) = role(cx, "struct", variant) else { rep.fail("roles", "struct", variant, "role not found", "-", json!({})); continue };
         for n in [0usize, 1, 2, 3] {
@@ -561,6 +566,7 @@ pub fn c18(cx: &Cx) -> i32 {
                 let inst = cache.get(v, 1);
                 let Ok(inst) = &*inst else { rep.fail("TP-parse", &label, "parse", "instance does not parse", &site, json!({})); continue };
                 for (name, msg) in crate::props_hyg::signature_findings(inst) { rep.fail("TP-signature", &label, &name, &msg, &site, json!({})); }
+                for (name, msg) in crate::props_hyg::impl_generics_findings(inst) { rep.fail("TP-where-retained", &label, &name, &msg, &site, json!({})); }
                 let cs = cond_str(&p.cond);
                 let ims = find_impls(&inst.file);
                 let Some(im) = ims.iter().find(|im| ends(&trait_path(im), &format!("ops::{variant}"))) else { rep.fail("TP-deref", &label, "no-impl", "no impl generated", &site, json!({})); continue };
@@ -649,6 +655,7 @@ fn check_default_fields(rep: &mut Report, inst: &Instance, label: &str, site: &s
 
 pub fn c11(cx: &Cx) -> i32 {
     let mut rep = cx.report("C11");
+    crate::misc::span_hygiene_rule(cx, &mut rep);
     consulted_rule(cx, &mut rep, &["Default"]);
     crate::misc::helper_name_rule(cx, &mut rep, "HelperAttributeForDefault", "default");
     crate::misc::default_placeholder_rule(cx, &mut rep);
@@ -666,6 +673,7 @@ pub fn c11(cx: &Cx) -> i32 {
             let inst = cache.get(v, 2);
             let Ok(inst) = &*inst else { rep.fail("TP-parse", &label, "parse", "instance does not parse", &site, json!({})); continue };
             for (name, msg) in crate::props_hyg::signature_findings(inst) { rep.fail("TP-signature", &label, &name, &msg, &site, json!({})); }
+            for (name, msg) in crate::props_hyg::impl_generics_findings(inst) { rep.fail("TP-where-retained", &label, &name, &msg, &site, json!({})); }
             n += 1;
             let ims = find_impls(&inst.file);
             let Some(m) = ims.iter().find(|im| ends(&trait_path(im), "default::Default")).and_then(|im| method(im, "default")) else { rep.fail("TP-default-field", &label, "no-impl", "no Default impl / default()", &site, json!({})); continue };
@@ -720,6 +728,7 @@ pub fn c11(cx: &Cx) -> i32 {
                         let inst = cache.get(v, 2);
                         let Ok(inst) = &*inst else { rep.fail("TP-parse", &label, "parse", "instance does not parse", &site, json!({})); continue };
                         for (name, msg) in crate::props_hyg::signature_findings(inst) { rep.fail("TP-signature", &label, &name, &msg, &site, json!({})); }
+                        for (name, msg) in crate::props_hyg::impl_generics_findings(inst) { rep.fail("TP-where-retained", &label, &name, &msg, &site, json!({})); }
                         let ims = find_impls(&inst.file);
                         let Some(m) = ims.iter().find(|im| ends(&trait_path(im), "default::Default")).and_then(|im| method(im, "default")) else { rep.fail("TP-default-field", &label, "no-impl", "no Default impl / default()", &site, json!({})); continue };
                         let mut sem = Sem::new();
@@ -836,6 +845,7 @@ pub fn c09(cx: &Cx) -> i32 {
             let inst = cache.get(&payload, 2);
             let Ok(inst) = &*inst else { if let Err(e) = &*inst { rep.fail("TP-parse", &label, "parse", e, &site, json!({"path": cs})); } continue };
             for (name, msg) in crate::props_hyg::signature_findings(inst) { rep.fail("TP-signature", &label, &name, &msg, &site, json!({})); }
+            for (name, msg) in crate::props_hyg::impl_generics_findings(inst) { rep.fail("TP-where-retained", &label, &name, &msg, &site, json!({})); }
             configs.insert((is_binary, mb, ma, l_flag, r_flag));
             let ims = find_impls(&inst.file);
             // expected list
